@@ -50,7 +50,7 @@ TYPES = {
 }
 # un-annotated parameters of a callable given to config_for: the field type is inferred from the default
 CF_UNTYPED_DEFAULTS = ["3", "'k'", "2.5", "True", "False", "True", "False", "(True, 2)", "(1, 2.5)", "('a', False)", "(False, True)", "(7,)",
-                       "[1, 2]", "['a', 'b']", "[2.5]", "[]", "[True]"]
+                       "[1, 2]", "['a', 'b']", "[2.5]", "[]", "[True]", "{}", "{}"]
 MUTABLE_DEFAULTS = {"list": ["[1, 2]", "[]"], "dc": ["Cfg()", "Cfg(n=5)"]}
 ANN_COQ = {"int": "AInt", "float": "AFloat", "str": "AStr", "bool": "ABool", "list": "AList", "opt": "AOpt",
            "enum": "AEnum", "dc": "ADc", "fdc": "ADc", "none": "ANone"}
@@ -122,7 +122,7 @@ def _gen_sig(rng, mode, bool_rate):
                 default, mut = rng.choice(MUTABLE_DEFAULTS[ty]), True
             elif ty == "none" and mode == "cf":
                 default = rng.choice(CF_UNTYPED_DEFAULTS)
-                mut = default.startswith("[")
+                mut = default.startswith("[") or default.startswith("{")
             else:
                 default = rng.choice(TYPES[ty][1])
         params.append(dict(name=name, kind=kind, ty=ty, default=default, mut=mut))
@@ -171,7 +171,7 @@ def _gen_argv(rng, params, positional_names, malformed):
         if kind_of_bad == "badvalue" and cands:
             bad_target = rng.choice(cands)["name"]
     for p in params:
-        if p["name"] in positional_names:
+        if p["name"] in positional_names or p.get("ety") == "DDictE":
             continue
         required = p["default"] is None
         if required and p["ty"] == "dc":
@@ -411,6 +411,10 @@ def _list_default(p):
     return p["ty"] == "list" or (p["ty"] == "none" and (p["default"] or "").startswith("["))
 
 
+def _dict_default(p):
+    return p["ty"] == "none" and (p["default"] or "").startswith("{")
+
+
 def _dkind(src):
     """Kind of a default written as a literal: DBool/DInt/DFloat/DStr, a list of kinds for a tuple, DOther."""
     import ast
@@ -432,6 +436,8 @@ def _dkind(src):
             return [k(x) for x in v]
         if isinstance(v, list):
             return {"L": [k(x) for x in v]}
+        if isinstance(v, dict):
+            return "DDictE" if not v else "DDictN"
         return "DOther"
     return k(v)
 
@@ -441,7 +447,7 @@ def _kind_ann(k):
         return "List[" + _kind_ann(k["L"][0]) + "]" if k["L"] else "list"
     if isinstance(k, list):
         return "Tuple[" + ", ".join(_kind_ann(x) for x in k) + "]"
-    return {"DBool": "bool", "DInt": "int", "DFloat": "float", "DStr": "str"}[k]
+    return {"DBool": "bool", "DInt": "int", "DFloat": "float", "DStr": "str", "DDictE": "dict"}[k]
 
 
 def _inferred(p, over):
@@ -498,6 +504,9 @@ def gen(tier, seed):
                       session=[dict(ignore=["absent"], frozen=None, over=[])] * 2, call_pos=[], call_kw=[]))
     cases.append(dict(mode="main", params=[P("x", "pk", "opt"), P("y", "pk", "int", "1")], doc=False, argv=[],
                       extra_pos=[], extra_kw=[]))
+    for argv in ([], ["--n", "2"]):       # auto-mutants 114/232: an empty dict default
+        cases.append(dict(mode="cf", params=[P("d", "pk", "none", "{}", True), P("n", "pk", "int", "1")], doc=False, argv=argv,
+                          session=[dict(ignore=["absent"], frozen=None, over=[])] * 2, call_pos=[], call_kw=[]))
     for argv in ([], ["--xs", "3", "4", "--zs", "q"], ["--ys", "1", "b"]):
         cases.append(dict(mode="cf", params=[P("xs", "pk", "none", "[1, 2]", True), P("ys", "pk", "none", "[]", True),
                                              P("zs", "pk", "none", "['a']", True)], doc=False, argv=argv,
@@ -830,6 +839,8 @@ def run_impl(cases):
                 return {"L": ity(typing.get_args(t)[0])}
             if t is list:
                 return "LBare"
+            if t is dict:
+                return "DictBare"
             return "IFail"
         ftypes = {fl.name: fl.type for fl in dataclasses.fields(cls0)}
         overridden = [k for k, _ in req0["over"]]
@@ -1116,7 +1127,8 @@ def _spec_ity(k):
         return {"L": _spec_ity(k["L"][0])} if k["L"] else "LBare"
     if isinstance(k, list):
         return [_spec_ity(x) for x in k]
-    return {"DBool": "TBool", "DInt": "TInt", "DFloat": "TFloat", "DStr": "TStr", "DOther": "IFail"}[k]
+    return {"DBool": "TBool", "DInt": "TInt", "DFloat": "TFloat", "DStr": "TStr", "DOther": "IFail", "DDictE": "DictBare",
+            "DDictN": "IFail"}[k]
 
 
 def signature(case, obs, reason):
@@ -1156,7 +1168,7 @@ def signature(case, obs, reason):
                 p = byname[m.group(2)]
                 if p["ty"] == "dc" and m.group(1) == "Cfg":
                     return f"{tag}-setup:ValueError:dataclass-instance-default"
-                if _list_default(p) and m.group(1) == "list":
+                if (_list_default(p) and m.group(1) == "list") or (_dict_default(p) and m.group(1) == "dict"):
                     return f"{tag}-setup:ValueError:list-dict-set-default"      # regression of fix 4e8d91f / 91c405f
             return f"{tag}-setup:ValueError:other-cause"
         if res[1] == "TypeError" and any(p["ty"] == "bool" for p in params) and case["mode"] == "main":
@@ -1236,6 +1248,8 @@ def _req(req, over):
 def _cdkind(k):
     if isinstance(k, dict):
         return "(DList " + clist([_cdkind(x) for x in k["L"]]) + ")"
+    if k in ("DDictE", "DDictN"):
+        return f"(DDict {cbool(k == 'DDictE')})"
     return "(DTuple " + clist([_cdkind(x) for x in k]) + ")" if isinstance(k, list) else k
 
 
@@ -1244,6 +1258,8 @@ def _city(t):
         return f"(IList {_city(t['L'])})"
     if t == "LBare":
         return "IListBare"
+    if t == "DictBare":
+        return "IDictBare"
     if isinstance(t, list):
         return "(ITuple " + clist([_city(x) for x in t]) + ")"
     return "IFail" if t == "IFail" else f"(IB {t})"
@@ -1255,7 +1271,7 @@ def _params_coq(params, defaults):
         d = defaults.get(p["name"])
         ann = CANN_TAG[p["cann"]] if (p["ty"] == "none" and p.get("cann")) else ANN_COQ[p["ty"]]
         ps.append(f"mkparam {cstr(p['name'])} {KIND_COQ[p['kind']]} {ann} {copt(cstr(d)) if d is not None else 'None'} "
-                  f"{'Immut' if not p['mut'] else '(MutC KList)' if _list_default(p) else 'MutOther'}")
+                  f"{'Immut' if not p['mut'] else '(MutC KList)' if _list_default(p) else '(MutC KDict)' if _dict_default(p) else 'MutOther'}")
     return ps
 
 
